@@ -1,7 +1,7 @@
 #![allow(unused)]
 fn mk<T>() -> T { unimplemented!() }
 
-pub fn p1() {
+pub fn p2() {
     let a: re::math::angle::Angle = mk();
     let b: re::math::angle::Angle = mk();
     let _ = a + b;
@@ -9,26 +9,44 @@ pub fn p1() {
 
 pub fn p3() {
     let a: re::math::angle::Angle = mk();
-    let b: f32 = mk();
-    let _ = a * b;
+    let b: re::math::angle::Angle = mk();
+    let _ = a % b;
 }
 
 pub fn p4() {
     let a: re::math::angle::Angle = mk();
+    let b: re::math::angle::Angle = mk();
+    let _ = a - b;
+}
+
+pub fn p8() {
+    let a: re::math::angle::Angle = mk();
+    let b: f32 = mk();
+    let _ = a / b;
+}
+
+pub fn p9() {
+    let a: re::math::angle::Angle = mk();
+    let b: f32 = mk();
+    let _ = a * b;
+}
+
+pub fn p10() {
+    let a: re::math::angle::Angle = mk();
     let _ = re::math::angle::polar(1.0, a);
 }
 
-pub fn p5() {
+pub fn p11() {
     let a: re::math::angle::Angle = mk();
     let _ = re::math::mat::rotate_x(a);
 }
 
-pub fn p6() {
+pub fn p12() {
     let a: re::math::angle::Angle = mk();
     let _ = re::math::angle::Angle::sin(a);
 }
 
-pub fn p7() {
+pub fn p13() {
     let a: re::math::color::Color3f<re::math::color::Hsl> = mk();
     let b: re::math::color::Color3f<re::math::color::Hsl> = mk();
     let c: re::math::color::Color3f<re::math::color::Hsl> = mk();
@@ -36,53 +54,53 @@ pub fn p7() {
     let _ = re::math::space::Affine::add(&c, &d);
 }
 
-pub fn p11() {
+pub fn p17() {
     let a: re::math::color::Color3f<re::math::color::Hsl> = mk();
     let b: re::math::color::Color3f<re::math::color::Hsl> = mk();
     let _ = re::math::space::Affine::add(&a, &b);
 }
 
-pub fn p12() {
+pub fn p18() {
     let a: re::math::color::Color3f<re::math::color::Hsl> = mk();
     let b: re::math::color::Color3f<re::math::color::Hsl> = mk();
     let _ = re::math::space::Affine::sub(&a, &b);
 }
 
-pub fn p13() {
+pub fn p19() {
     let a: re::math::color::Color3f<re::math::color::Hsl> = mk();
     let b: re::math::color::Color3f<re::math::color::Hsl> = mk();
     let _ = re::math::Lerp::lerp(&a, &b, 0.5);
 }
 
-pub fn p32() {
+pub fn p38() {
     let a: re::math::color::Color3f<re::math::color::Hsl> = mk();
     let _ = a.to_rgb();
 }
 
-pub fn p41() {
+pub fn p47() {
     let a: re::math::color::Color3f<re::math::color::LinRgb> = mk();
     let b: re::math::color::Color3f<re::math::color::LinRgb> = mk();
     let _ = re::math::space::Affine::add(&a, &b);
 }
 
-pub fn p42() {
+pub fn p48() {
     let a: re::math::color::Color3f<re::math::color::LinRgb> = mk();
     let b: re::math::color::Color3f<re::math::color::LinRgb> = mk();
     let _ = re::math::space::Affine::sub(&a, &b);
 }
 
-pub fn p43() {
+pub fn p49() {
     let a: re::math::color::Color3f<re::math::color::LinRgb> = mk();
     let b: re::math::color::Color3f<re::math::color::LinRgb> = mk();
     let _ = re::math::Lerp::lerp(&a, &b, 0.5);
 }
 
-pub fn p47() {
+pub fn p53() {
     let a: re::math::color::Color3f<re::math::color::LinRgb> = mk();
     let _ = a.to_srgb();
 }
 
-pub fn p64() {
+pub fn p70() {
     let a: re::math::color::Color3f<re::math::color::Rgb> = mk();
     let b: re::math::color::Color3f<re::math::color::Rgb> = mk();
     let c: re::math::color::Color3f<re::math::color::Rgb> = mk();
@@ -90,45 +108,45 @@ pub fn p64() {
     let _ = re::math::space::Affine::add(&c, &d);
 }
 
-pub fn p67() {
+pub fn p73() {
     let a: re::math::color::Color3f<re::math::color::Rgb> = mk();
     let b: re::math::color::Color3f<re::math::color::Rgb> = mk();
     let _ = re::math::space::Affine::add(&a, &b);
 }
 
-pub fn p68() {
+pub fn p74() {
     let a: re::math::color::Color3f<re::math::color::Rgb> = mk();
     let b: re::math::color::Color3f<re::math::color::Rgb> = mk();
     let _ = re::math::space::Affine::sub(&a, &b);
 }
 
-pub fn p69() {
+pub fn p75() {
     let a: re::math::color::Color3f<re::math::color::Rgb> = mk();
     let b: re::math::color::Color3f<re::math::color::Rgb> = mk();
     let _ = re::math::Lerp::lerp(&a, &b, 0.5);
 }
 
-pub fn p78() {
+pub fn p84() {
     let a: re::math::color::Color3f<re::math::color::Rgb> = mk();
     let _ = a.to_color3();
 }
 
-pub fn p79() {
+pub fn p85() {
     let a: re::math::color::Color3f<re::math::color::Rgb> = mk();
     let _ = a.to_hsl();
 }
 
-pub fn p80() {
+pub fn p86() {
     let a: re::math::color::Color3f<re::math::color::Rgb> = mk();
     let _ = a.to_linear();
 }
 
-pub fn p81() {
+pub fn p87() {
     let a: re::math::color::Color3f<re::math::color::Rgb> = mk();
     let _ = a.to_rgba();
 }
 
-pub fn p94() {
+pub fn p100() {
     let a: re::math::color::Color3<re::math::color::Hsl> = mk();
     let b: re::math::color::Color3<re::math::color::Hsl> = mk();
     let c: re::math::color::Color3<re::math::color::Hsl> = mk();
@@ -136,12 +154,12 @@ pub fn p94() {
     let _ = re::math::space::Affine::add(&c, &d);
 }
 
-pub fn p100() {
+pub fn p106() {
     let a: re::math::color::Color3<re::math::color::Hsl> = mk();
     let _ = a.to_rgb();
 }
 
-pub fn p121() {
+pub fn p127() {
     let a: re::math::color::Color3<re::math::color::Rgb> = mk();
     let b: re::math::color::Color3<re::math::color::Rgb> = mk();
     let c: re::math::color::Color3<re::math::color::Rgb> = mk();
@@ -149,944 +167,956 @@ pub fn p121() {
     let _ = re::math::space::Affine::add(&c, &d);
 }
 
-pub fn p122() {
+pub fn p128() {
     let a: re::math::color::Color3<re::math::color::Rgb> = mk();
     let _ = a.to_hsl();
 }
 
-pub fn p123() {
+pub fn p129() {
     let a: re::math::color::Color3<re::math::color::Rgb> = mk();
     let _ = a.to_rgba();
 }
 
-pub fn p129() {
+pub fn p137() {
     let a: f32 = mk();
     let b: f32 = mk();
     let _ = a + b;
 }
 
-pub fn p133() {
-    let a: re::math::mat::Mat3x3<re::math::mat::RealToReal<2, re::render::Model, re::render::Model>> = mk();
-    let b: re::math::point::Point2<re::render::Model> = mk();
-    let _r: re::math::point::Point2<re::render::Model> = a.apply_pt(&b);
-}
-
-pub fn p137() {
-    let a: re::math::mat::Mat3x3<re::math::mat::RealToReal<2, re::render::Model, re::render::Model>> = mk();
-    let b: re::math::vec::Vec2<re::render::Model> = mk();
-    let _r: re::math::vec::Vec2<re::render::Model> = a.apply(&b);
+pub fn p138() {
+    let a: f32 = mk();
+    let b: f32 = mk();
+    let _ = a % b;
 }
 
 pub fn p139() {
+    let a: f32 = mk();
+    let b: f32 = mk();
+    let _ = a - b;
+}
+
+pub fn p143() {
+    let a: re::math::mat::Mat3x3<re::math::mat::RealToReal<2, re::render::Model, re::render::Model>> = mk();
+    let b: re::math::point::Point2<re::render::Model> = mk();
+    let _r: re::math::point::Point2<re::render::Model> = a.apply_pt(&b);
+}
+
+pub fn p147() {
+    let a: re::math::mat::Mat3x3<re::math::mat::RealToReal<2, re::render::Model, re::render::Model>> = mk();
+    let b: re::math::vec::Vec2<re::render::Model> = mk();
+    let _r: re::math::vec::Vec2<re::render::Model> = a.apply(&b);
+}
+
+pub fn p149() {
     let a: re::math::mat::Mat3x3<re::math::mat::RealToReal<2, re::render::Model, re::render::Model>> = mk();
     let b: re::math::vec::Vec2<re::render::Model> = mk();
     let _ = a.apply(&b);
 }
 
-pub fn p146() {
+pub fn p156() {
     let a: re::math::mat::Mat3x3<re::math::mat::RealToReal<2, re::render::Model, re::render::World>> = mk();
     let b: re::math::point::Point2<re::render::Model> = mk();
     let _r: re::math::point::Point2<re::render::World> = a.apply_pt(&b);
 }
 
-pub fn p150() {
+pub fn p160() {
     let a: re::math::mat::Mat3x3<re::math::mat::RealToReal<2, re::render::Model, re::render::World>> = mk();
     let b: re::math::vec::Vec2<re::render::Model> = mk();
     let _r: re::math::vec::Vec2<re::render::World> = a.apply(&b);
 }
 
-pub fn p151() {
+pub fn p161() {
     let a: re::math::mat::Mat3x3<re::math::mat::RealToReal<2, re::render::Model, re::render::World>> = mk();
     let b: re::math::vec::Vec2<re::render::Model> = mk();
     let _ = a.apply(&b);
 }
 
-pub fn p159() {
+pub fn p169() {
     let a: re::math::mat::Mat3x3<re::math::mat::RealToReal<2, re::render::World, re::render::Model>> = mk();
     let b: re::math::point::Point2<re::render::World> = mk();
     let _r: re::math::point::Point2<re::render::Model> = a.apply_pt(&b);
 }
 
-pub fn p164() {
+pub fn p174() {
     let a: re::math::mat::Mat3x3<re::math::mat::RealToReal<2, re::render::World, re::render::Model>> = mk();
     let b: re::math::vec::Vec2<re::render::World> = mk();
     let _r: re::math::vec::Vec2<re::render::Model> = a.apply(&b);
 }
 
-pub fn p166() {
+pub fn p176() {
     let a: re::math::mat::Mat3x3<re::math::mat::RealToReal<2, re::render::World, re::render::Model>> = mk();
     let b: re::math::vec::Vec2<re::render::World> = mk();
     let _ = a.apply(&b);
 }
 
-pub fn p172() {
+pub fn p182() {
     let a: re::math::mat::Mat3x3<re::math::mat::RealToReal<2, re::render::World, re::render::World>> = mk();
     let b: re::math::point::Point2<re::render::World> = mk();
     let _r: re::math::point::Point2<re::render::World> = a.apply_pt(&b);
 }
 
-pub fn p177() {
+pub fn p187() {
     let a: re::math::mat::Mat3x3<re::math::mat::RealToReal<2, re::render::World, re::render::World>> = mk();
     let b: re::math::vec::Vec2<re::render::World> = mk();
     let _r: re::math::vec::Vec2<re::render::World> = a.apply(&b);
 }
 
-pub fn p178() {
+pub fn p188() {
     let a: re::math::mat::Mat3x3<re::math::mat::RealToReal<2, re::render::World, re::render::World>> = mk();
     let b: re::math::vec::Vec2<re::render::World> = mk();
     let _ = a.apply(&b);
 }
 
-pub fn p181() {
+pub fn p191() {
     let a: re::math::mat::Mat4x4<re::math::mat::RealToReal<3, re::render::Model, re::render::Model>> = mk();
     let b: re::math::mat::Mat4x4<re::math::mat::RealToReal<3, re::render::Model, re::render::Model>> = mk();
     let _r: re::math::mat::Mat4x4<re::math::mat::RealToReal<3, re::render::Model, re::render::Model>> = a.compose(&b);
 }
 
-pub fn p185() {
+pub fn p195() {
     let a: re::math::mat::Mat4x4<re::math::mat::RealToReal<3, re::render::Model, re::render::Model>> = mk();
     let b: re::math::mat::Mat4x4<re::math::mat::RealToReal<3, re::render::Model, re::render::Model>> = mk();
     let _ = a.compose(&b);
 }
 
-pub fn p186() {
+pub fn p196() {
     let a: re::math::mat::Mat4x4<re::math::mat::RealToReal<3, re::render::Model, re::render::Model>> = mk();
     let b: re::math::mat::Mat4x4<re::math::mat::RealToReal<3, re::render::Model, re::render::Model>> = mk();
     let _ = a.then(&b);
 }
 
-pub fn p188() {
+pub fn p198() {
     let a: re::math::mat::Mat4x4<re::math::mat::RealToReal<3, re::render::Model, re::render::Model>> = mk();
     let b: re::math::mat::Mat4x4<re::math::mat::RealToReal<3, re::render::Model, ()>> = mk();
     let _ = a.then(&b);
 }
 
-pub fn p194() {
+pub fn p204() {
     let a: re::math::mat::Mat4x4<re::math::mat::RealToReal<3, re::render::Model, re::render::Model>> = mk();
     let b: re::math::mat::Mat4x4<re::math::mat::RealToReal<3, re::render::Model, re::render::World>> = mk();
     let _ = a.then(&b);
 }
 
-pub fn p196() {
+pub fn p206() {
     let a: re::math::mat::Mat4x4<re::math::mat::RealToReal<3, re::render::Model, re::render::Model>> = mk();
     let b: re::math::mat::Mat4x4<re::math::mat::RealToReal<3, (), re::render::Model>> = mk();
     let _ = a.compose(&b);
 }
 
-pub fn p203() {
+pub fn p213() {
     let a: re::math::mat::Mat4x4<re::math::mat::RealToReal<3, re::render::Model, re::render::Model>> = mk();
     let b: re::math::mat::Mat4x4<re::math::mat::RealToReal<3, re::render::World, re::render::Model>> = mk();
     let _r: re::math::mat::Mat4x4<re::math::mat::RealToReal<3, re::render::World, re::render::Model>> = a.compose(&b);
 }
 
-pub fn p206() {
+pub fn p216() {
     let a: re::math::mat::Mat4x4<re::math::mat::RealToReal<3, re::render::Model, re::render::Model>> = mk();
     let b: re::math::mat::Mat4x4<re::math::mat::RealToReal<3, re::render::World, re::render::Model>> = mk();
     let _ = a.compose(&b);
 }
 
-pub fn p216() {
+pub fn p226() {
     let a: re::math::mat::Mat4x4<re::math::mat::RealToReal<3, re::render::Model, re::render::Model>> = mk();
     let b: re::math::mat::Mat4x4<re::math::mat::RealToProj<re::render::Model>> = mk();
     let _ = a.then(&b);
 }
 
-pub fn p224() {
+pub fn p234() {
     let a: re::math::mat::Mat4x4<re::math::mat::RealToReal<3, re::render::Model, re::render::Model>> = mk();
     let b: re::math::point::Point3<re::render::Model> = mk();
     let _r: re::math::point::Point3<re::render::Model> = a.apply_pt(&b);
 }
 
-pub fn p227() {
+pub fn p237() {
     let a: re::math::mat::Mat4x4<re::math::mat::RealToReal<3, re::render::Model, re::render::Model>> = mk();
     let b: re::math::point::Point3<re::render::Model> = mk();
     let _ = a.apply_pt(&b);
 }
 
-pub fn p239() {
+pub fn p249() {
     let a: re::math::mat::Mat4x4<re::math::mat::RealToReal<3, re::render::Model, re::render::Model>> = mk();
     let b: re::math::vec::Vec3<re::render::Model> = mk();
     let _r: re::math::vec::Vec3<re::render::Model> = a.apply(&b);
 }
 
-pub fn p242() {
+pub fn p252() {
     let a: re::math::mat::Mat4x4<re::math::mat::RealToReal<3, re::render::Model, re::render::Model>> = mk();
     let b: re::math::vec::Vec3<re::render::Model> = mk();
     let _ = a.apply(&b);
 }
 
-pub fn p251() {
+pub fn p261() {
     let a: re::math::mat::Mat4x4<re::math::mat::RealToReal<3, re::render::Model, re::render::Model>> = mk();
     let _ = a.determinant();
 }
 
-pub fn p252() {
+pub fn p262() {
     let a: re::math::mat::Mat4x4<re::math::mat::RealToReal<3, re::render::Model, re::render::Model>> = mk();
     let _ = a.inverse();
 }
 
-pub fn p253() {
+pub fn p263() {
     let a: re::math::mat::Mat4x4<re::math::mat::RealToReal<3, re::render::Model, re::render::Model>> = mk();
     let _ = a.transpose();
 }
 
-pub fn p255() {
+pub fn p265() {
     let a: re::math::mat::Mat4x4<re::math::mat::RealToReal<3, re::render::Model, ()>> = mk();
     let b: re::math::mat::Mat4x4<re::math::mat::RealToReal<3, re::render::Model, re::render::Model>> = mk();
     let _ = a.compose(&b);
 }
 
-pub fn p260() {
+pub fn p270() {
     let a: re::math::mat::Mat4x4<re::math::mat::RealToReal<3, re::render::Model, ()>> = mk();
     let b: re::math::mat::Mat4x4<re::math::mat::RealToReal<3, (), re::render::Model>> = mk();
     let _ = a.compose(&b);
 }
 
-pub fn p261() {
+pub fn p271() {
     let a: re::math::mat::Mat4x4<re::math::mat::RealToReal<3, re::render::Model, ()>> = mk();
     let b: re::math::mat::Mat4x4<re::math::mat::RealToReal<3, (), re::render::Model>> = mk();
     let _ = a.then(&b);
 }
 
-pub fn p263() {
+pub fn p273() {
     let a: re::math::mat::Mat4x4<re::math::mat::RealToReal<3, re::render::Model, ()>> = mk();
     let b: re::math::mat::Mat4x4<re::math::mat::RealToReal<3, (), ()>> = mk();
     let _ = a.then(&b);
 }
 
-pub fn p265() {
+pub fn p275() {
     let a: re::math::mat::Mat4x4<re::math::mat::RealToReal<3, re::render::Model, ()>> = mk();
     let b: re::math::mat::Mat4x4<re::math::mat::RealToReal<3, (), re::render::World>> = mk();
     let _ = a.then(&b);
 }
 
-pub fn p267() {
+pub fn p277() {
     let a: re::math::mat::Mat4x4<re::math::mat::RealToReal<3, re::render::Model, ()>> = mk();
     let b: re::math::mat::Mat4x4<re::math::mat::RealToReal<3, re::render::World, re::render::Model>> = mk();
     let _ = a.compose(&b);
 }
 
-pub fn p275() {
+pub fn p285() {
     let a: re::math::mat::Mat4x4<re::math::mat::RealToReal<3, re::render::Model, ()>> = mk();
     let b: re::math::mat::Mat4x4<re::math::mat::RealToProj<()>> = mk();
     let _ = a.then(&b);
 }
 
-pub fn p282() {
+pub fn p292() {
     let a: re::math::mat::Mat4x4<re::math::mat::RealToReal<3, re::render::Model, ()>> = mk();
     let b: re::math::point::Point3<re::render::Model> = mk();
     let _r: re::math::point::Point3<()> = a.apply_pt(&b);
 }
 
-pub fn p284() {
+pub fn p294() {
     let a: re::math::mat::Mat4x4<re::math::mat::RealToReal<3, re::render::Model, ()>> = mk();
     let b: re::math::point::Point3<re::render::Model> = mk();
     let _ = a.apply_pt(&b);
 }
 
-pub fn p297() {
+pub fn p307() {
     let a: re::math::mat::Mat4x4<re::math::mat::RealToReal<3, re::render::Model, ()>> = mk();
     let b: re::math::vec::Vec3<re::render::Model> = mk();
     let _r: re::math::vec::Vec3<()> = a.apply(&b);
 }
 
-pub fn p299() {
+pub fn p309() {
     let a: re::math::mat::Mat4x4<re::math::mat::RealToReal<3, re::render::Model, ()>> = mk();
     let b: re::math::vec::Vec3<re::render::Model> = mk();
     let _ = a.apply(&b);
 }
 
-pub fn p308() {
+pub fn p318() {
     let a: re::math::mat::Mat4x4<re::math::mat::RealToReal<3, re::render::Model, ()>> = mk();
     let _ = a.determinant();
 }
 
-pub fn p309() {
+pub fn p319() {
     let a: re::math::mat::Mat4x4<re::math::mat::RealToReal<3, re::render::Model, ()>> = mk();
     let _ = a.inverse();
 }
 
-pub fn p310() {
+pub fn p320() {
     let a: re::math::mat::Mat4x4<re::math::mat::RealToReal<3, re::render::Model, ()>> = mk();
     let _ = a.transpose();
 }
 
-pub fn p312() {
+pub fn p322() {
     let a: re::math::mat::Mat4x4<re::math::mat::RealToReal<3, re::render::Model, re::render::World>> = mk();
     let b: re::math::mat::Mat4x4<re::math::mat::RealToReal<3, re::render::Model, re::render::Model>> = mk();
     let _r: re::math::mat::Mat4x4<re::math::mat::RealToReal<3, re::render::Model, re::render::World>> = a.compose(&b);
 }
 
-pub fn p316() {
-    let a: re::math::mat::Mat4x4<re::math::mat::RealToReal<3, re::render::Model, re::render::World>> = mk();
-    let b: re::math::mat::Mat4x4<re::math::mat::RealToReal<3, re::render::Model, re::render::Model>> = mk();
-    let _ = a.compose(&b);
-}
-
 pub fn p326() {
     let a: re::math::mat::Mat4x4<re::math::mat::RealToReal<3, re::render::Model, re::render::World>> = mk();
-    let b: re::math::mat::Mat4x4<re::math::mat::RealToReal<3, (), re::render::Model>> = mk();
-    let _ = a.compose(&b);
-}
-
-pub fn p334() {
-    let a: re::math::mat::Mat4x4<re::math::mat::RealToReal<3, re::render::Model, re::render::World>> = mk();
-    let b: re::math::mat::Mat4x4<re::math::mat::RealToReal<3, re::render::World, re::render::Model>> = mk();
-    let _r: re::math::mat::Mat4x4<re::math::mat::RealToReal<3, re::render::World, re::render::World>> = a.compose(&b);
-}
-
-pub fn p335() {
-    let a: re::math::mat::Mat4x4<re::math::mat::RealToReal<3, re::render::Model, re::render::World>> = mk();
-    let b: re::math::mat::Mat4x4<re::math::mat::RealToReal<3, re::render::World, re::render::Model>> = mk();
+    let b: re::math::mat::Mat4x4<re::math::mat::RealToReal<3, re::render::Model, re::render::Model>> = mk();
     let _ = a.compose(&b);
 }
 
 pub fn p336() {
     let a: re::math::mat::Mat4x4<re::math::mat::RealToReal<3, re::render::Model, re::render::World>> = mk();
+    let b: re::math::mat::Mat4x4<re::math::mat::RealToReal<3, (), re::render::Model>> = mk();
+    let _ = a.compose(&b);
+}
+
+pub fn p344() {
+    let a: re::math::mat::Mat4x4<re::math::mat::RealToReal<3, re::render::Model, re::render::World>> = mk();
+    let b: re::math::mat::Mat4x4<re::math::mat::RealToReal<3, re::render::World, re::render::Model>> = mk();
+    let _r: re::math::mat::Mat4x4<re::math::mat::RealToReal<3, re::render::World, re::render::World>> = a.compose(&b);
+}
+
+pub fn p345() {
+    let a: re::math::mat::Mat4x4<re::math::mat::RealToReal<3, re::render::Model, re::render::World>> = mk();
+    let b: re::math::mat::Mat4x4<re::math::mat::RealToReal<3, re::render::World, re::render::Model>> = mk();
+    let _ = a.compose(&b);
+}
+
+pub fn p346() {
+    let a: re::math::mat::Mat4x4<re::math::mat::RealToReal<3, re::render::Model, re::render::World>> = mk();
     let b: re::math::mat::Mat4x4<re::math::mat::RealToReal<3, re::render::World, re::render::Model>> = mk();
     let _ = a.then(&b);
 }
 
-pub fn p338() {
+pub fn p348() {
     let a: re::math::mat::Mat4x4<re::math::mat::RealToReal<3, re::render::Model, re::render::World>> = mk();
     let b: re::math::mat::Mat4x4<re::math::mat::RealToReal<3, re::render::World, ()>> = mk();
     let _ = a.then(&b);
 }
 
-pub fn p344() {
+pub fn p354() {
     let a: re::math::mat::Mat4x4<re::math::mat::RealToReal<3, re::render::Model, re::render::World>> = mk();
     let b: re::math::mat::Mat4x4<re::math::mat::RealToReal<3, re::render::World, re::render::World>> = mk();
     let _ = a.then(&b);
 }
 
-pub fn p350() {
+pub fn p360() {
     let a: re::math::mat::Mat4x4<re::math::mat::RealToReal<3, re::render::Model, re::render::World>> = mk();
     let b: re::math::mat::Mat4x4<re::math::mat::RealToProj<re::render::World>> = mk();
     let _ = a.then(&b);
 }
 
-pub fn p356() {
+pub fn p366() {
     let a: re::math::mat::Mat4x4<re::math::mat::RealToReal<3, re::render::Model, re::render::World>> = mk();
     let b: re::math::point::Point3<re::render::Model> = mk();
     let _r: re::math::point::Point3<re::render::World> = a.apply_pt(&b);
 }
 
-pub fn p357() {
+pub fn p367() {
     let a: re::math::mat::Mat4x4<re::math::mat::RealToReal<3, re::render::Model, re::render::World>> = mk();
     let b: re::math::point::Point3<re::render::Model> = mk();
     let _ = a.apply_pt(&b);
 }
 
-pub fn p371() {
+pub fn p381() {
     let a: re::math::mat::Mat4x4<re::math::mat::RealToReal<3, re::render::Model, re::render::World>> = mk();
     let b: re::math::vec::Vec3<re::render::Model> = mk();
     let _r: re::math::vec::Vec3<re::render::World> = a.apply(&b);
 }
 
-pub fn p372() {
+pub fn p382() {
     let a: re::math::mat::Mat4x4<re::math::mat::RealToReal<3, re::render::Model, re::render::World>> = mk();
     let b: re::math::vec::Vec3<re::render::Model> = mk();
     let _ = a.apply(&b);
 }
 
-pub fn p381() {
+pub fn p391() {
     let a: re::math::mat::Mat4x4<re::math::mat::RealToReal<3, re::render::Model, re::render::World>> = mk();
     let _ = a.determinant();
 }
 
-pub fn p382() {
+pub fn p392() {
     let a: re::math::mat::Mat4x4<re::math::mat::RealToReal<3, re::render::Model, re::render::World>> = mk();
     let _ = a.inverse();
 }
 
-pub fn p383() {
+pub fn p393() {
     let a: re::math::mat::Mat4x4<re::math::mat::RealToReal<3, re::render::Model, re::render::World>> = mk();
     let _ = a.transpose();
 }
 
-pub fn p385() {
+pub fn p395() {
     let a: re::math::mat::Mat4x4<re::math::mat::RealToReal<3, (), re::render::Model>> = mk();
     let b: re::math::mat::Mat4x4<re::math::mat::RealToReal<3, re::render::Model, re::render::Model>> = mk();
     let _ = a.then(&b);
 }
 
-pub fn p386() {
+pub fn p396() {
     let a: re::math::mat::Mat4x4<re::math::mat::RealToReal<3, (), re::render::Model>> = mk();
     let b: re::math::mat::Mat4x4<re::math::mat::RealToReal<3, re::render::Model, ()>> = mk();
     let _ = a.compose(&b);
 }
 
-pub fn p387() {
+pub fn p397() {
     let a: re::math::mat::Mat4x4<re::math::mat::RealToReal<3, (), re::render::Model>> = mk();
     let b: re::math::mat::Mat4x4<re::math::mat::RealToReal<3, re::render::Model, ()>> = mk();
     let _ = a.then(&b);
 }
 
-pub fn p389() {
+pub fn p399() {
     let a: re::math::mat::Mat4x4<re::math::mat::RealToReal<3, (), re::render::Model>> = mk();
     let b: re::math::mat::Mat4x4<re::math::mat::RealToReal<3, re::render::Model, re::render::World>> = mk();
     let _ = a.then(&b);
 }
 
-pub fn p393() {
+pub fn p403() {
     let a: re::math::mat::Mat4x4<re::math::mat::RealToReal<3, (), re::render::Model>> = mk();
     let b: re::math::mat::Mat4x4<re::math::mat::RealToReal<3, (), ()>> = mk();
     let _ = a.compose(&b);
 }
 
-pub fn p399() {
+pub fn p409() {
     let a: re::math::mat::Mat4x4<re::math::mat::RealToReal<3, (), re::render::Model>> = mk();
     let b: re::math::mat::Mat4x4<re::math::mat::RealToReal<3, re::render::World, ()>> = mk();
     let _ = a.compose(&b);
 }
 
-pub fn p403() {
+pub fn p413() {
     let a: re::math::mat::Mat4x4<re::math::mat::RealToReal<3, (), re::render::Model>> = mk();
     let b: re::math::mat::Mat4x4<re::math::mat::RealToProj<re::render::Model>> = mk();
     let _ = a.then(&b);
 }
 
-pub fn p415() {
+pub fn p425() {
     let a: re::math::mat::Mat4x4<re::math::mat::RealToReal<3, (), re::render::Model>> = mk();
     let b: re::math::point::Point3<()> = mk();
     let _r: re::math::point::Point3<re::render::Model> = a.apply_pt(&b);
 }
 
-pub fn p418() {
+pub fn p428() {
     let a: re::math::mat::Mat4x4<re::math::mat::RealToReal<3, (), re::render::Model>> = mk();
     let b: re::math::point::Point3<()> = mk();
     let _ = a.apply_pt(&b);
 }
 
-pub fn p430() {
+pub fn p440() {
     let a: re::math::mat::Mat4x4<re::math::mat::RealToReal<3, (), re::render::Model>> = mk();
     let b: re::math::vec::Vec3<()> = mk();
     let _r: re::math::vec::Vec3<re::render::Model> = a.apply(&b);
 }
 
-pub fn p433() {
+pub fn p443() {
     let a: re::math::mat::Mat4x4<re::math::mat::RealToReal<3, (), re::render::Model>> = mk();
     let b: re::math::vec::Vec3<()> = mk();
     let _ = a.apply(&b);
 }
 
-pub fn p438() {
+pub fn p448() {
     let a: re::math::mat::Mat4x4<re::math::mat::RealToReal<3, (), re::render::Model>> = mk();
     let _ = a.determinant();
 }
 
-pub fn p439() {
+pub fn p449() {
     let a: re::math::mat::Mat4x4<re::math::mat::RealToReal<3, (), re::render::Model>> = mk();
     let _ = a.inverse();
 }
 
-pub fn p440() {
+pub fn p450() {
     let a: re::math::mat::Mat4x4<re::math::mat::RealToReal<3, (), re::render::Model>> = mk();
     let _ = a.transpose();
 }
 
-pub fn p444() {
+pub fn p454() {
     let a: re::math::mat::Mat4x4<re::math::mat::RealToReal<3, (), ()>> = mk();
     let b: re::math::mat::Mat4x4<re::math::mat::RealToReal<3, re::render::Model, ()>> = mk();
     let _ = a.compose(&b);
 }
 
-pub fn p448() {
+pub fn p458() {
     let a: re::math::mat::Mat4x4<re::math::mat::RealToReal<3, (), ()>> = mk();
     let b: re::math::mat::Mat4x4<re::math::mat::RealToReal<3, (), re::render::Model>> = mk();
     let _ = a.then(&b);
 }
 
-pub fn p449() {
+pub fn p459() {
     let a: re::math::mat::Mat4x4<re::math::mat::RealToReal<3, (), ()>> = mk();
     let b: re::math::mat::Mat4x4<re::math::mat::RealToReal<3, (), ()>> = mk();
     let _ = a.compose(&b);
 }
 
-pub fn p450() {
+pub fn p460() {
     let a: re::math::mat::Mat4x4<re::math::mat::RealToReal<3, (), ()>> = mk();
     let b: re::math::mat::Mat4x4<re::math::mat::RealToReal<3, (), ()>> = mk();
     let _ = a.then(&b);
 }
 
-pub fn p452() {
+pub fn p462() {
     let a: re::math::mat::Mat4x4<re::math::mat::RealToReal<3, (), ()>> = mk();
     let b: re::math::mat::Mat4x4<re::math::mat::RealToReal<3, (), re::render::World>> = mk();
     let _ = a.then(&b);
 }
 
-pub fn p456() {
+pub fn p466() {
     let a: re::math::mat::Mat4x4<re::math::mat::RealToReal<3, (), ()>> = mk();
     let b: re::math::mat::Mat4x4<re::math::mat::RealToReal<3, re::render::World, ()>> = mk();
     let _ = a.compose(&b);
 }
 
-pub fn p462() {
+pub fn p472() {
     let a: re::math::mat::Mat4x4<re::math::mat::RealToReal<3, (), ()>> = mk();
     let b: re::math::mat::Mat4x4<re::math::mat::RealToProj<()>> = mk();
     let _ = a.then(&b);
 }
 
-pub fn p473() {
+pub fn p483() {
     let a: re::math::mat::Mat4x4<re::math::mat::RealToReal<3, (), ()>> = mk();
     let b: re::math::point::Point3<()> = mk();
     let _r: re::math::point::Point3<()> = a.apply_pt(&b);
 }
 
-pub fn p475() {
+pub fn p485() {
     let a: re::math::mat::Mat4x4<re::math::mat::RealToReal<3, (), ()>> = mk();
     let b: re::math::point::Point3<()> = mk();
     let _ = a.apply_pt(&b);
 }
 
-pub fn p488() {
+pub fn p498() {
     let a: re::math::mat::Mat4x4<re::math::mat::RealToReal<3, (), ()>> = mk();
     let b: re::math::vec::Vec3<()> = mk();
     let _r: re::math::vec::Vec3<()> = a.apply(&b);
 }
 
-pub fn p490() {
+pub fn p500() {
     let a: re::math::mat::Mat4x4<re::math::mat::RealToReal<3, (), ()>> = mk();
     let b: re::math::vec::Vec3<()> = mk();
     let _ = a.apply(&b);
 }
 
-pub fn p495() {
+pub fn p505() {
     let a: re::math::mat::Mat4x4<re::math::mat::RealToReal<3, (), ()>> = mk();
     let _ = a.determinant();
 }
 
-pub fn p496() {
+pub fn p506() {
     let a: re::math::mat::Mat4x4<re::math::mat::RealToReal<3, (), ()>> = mk();
     let _ = a.inverse();
 }
 
-pub fn p497() {
+pub fn p507() {
     let a: re::math::mat::Mat4x4<re::math::mat::RealToReal<3, (), ()>> = mk();
     let _ = a.transpose();
 }
 
-pub fn p501() {
+pub fn p511() {
     let a: re::math::mat::Mat4x4<re::math::mat::RealToReal<3, (), re::render::World>> = mk();
     let b: re::math::mat::Mat4x4<re::math::mat::RealToReal<3, re::render::Model, ()>> = mk();
     let _ = a.compose(&b);
 }
 
-pub fn p507() {
+pub fn p517() {
     let a: re::math::mat::Mat4x4<re::math::mat::RealToReal<3, (), re::render::World>> = mk();
     let b: re::math::mat::Mat4x4<re::math::mat::RealToReal<3, (), ()>> = mk();
     let _ = a.compose(&b);
 }
 
-pub fn p511() {
+pub fn p521() {
     let a: re::math::mat::Mat4x4<re::math::mat::RealToReal<3, (), re::render::World>> = mk();
     let b: re::math::mat::Mat4x4<re::math::mat::RealToReal<3, re::render::World, re::render::Model>> = mk();
     let _ = a.then(&b);
 }
 
-pub fn p512() {
+pub fn p522() {
     let a: re::math::mat::Mat4x4<re::math::mat::RealToReal<3, (), re::render::World>> = mk();
     let b: re::math::mat::Mat4x4<re::math::mat::RealToReal<3, re::render::World, ()>> = mk();
     let _ = a.compose(&b);
 }
 
-pub fn p513() {
+pub fn p523() {
     let a: re::math::mat::Mat4x4<re::math::mat::RealToReal<3, (), re::render::World>> = mk();
     let b: re::math::mat::Mat4x4<re::math::mat::RealToReal<3, re::render::World, ()>> = mk();
     let _ = a.then(&b);
 }
 
-pub fn p515() {
+pub fn p525() {
     let a: re::math::mat::Mat4x4<re::math::mat::RealToReal<3, (), re::render::World>> = mk();
     let b: re::math::mat::Mat4x4<re::math::mat::RealToReal<3, re::render::World, re::render::World>> = mk();
-    let _ = a.then(&b);
-}
-
-pub fn p521() {
-    let a: re::math::mat::Mat4x4<re::math::mat::RealToReal<3, (), re::render::World>> = mk();
-    let b: re::math::mat::Mat4x4<re::math::mat::RealToProj<re::render::World>> = mk();
     let _ = a.then(&b);
 }
 
 pub fn p531() {
     let a: re::math::mat::Mat4x4<re::math::mat::RealToReal<3, (), re::render::World>> = mk();
+    let b: re::math::mat::Mat4x4<re::math::mat::RealToProj<re::render::World>> = mk();
+    let _ = a.then(&b);
+}
+
+pub fn p541() {
+    let a: re::math::mat::Mat4x4<re::math::mat::RealToReal<3, (), re::render::World>> = mk();
     let b: re::math::point::Point3<()> = mk();
     let _r: re::math::point::Point3<re::render::World> = a.apply_pt(&b);
 }
 
-pub fn p532() {
+pub fn p542() {
     let a: re::math::mat::Mat4x4<re::math::mat::RealToReal<3, (), re::render::World>> = mk();
     let b: re::math::point::Point3<()> = mk();
     let _ = a.apply_pt(&b);
 }
 
-pub fn p546() {
+pub fn p556() {
     let a: re::math::mat::Mat4x4<re::math::mat::RealToReal<3, (), re::render::World>> = mk();
     let b: re::math::vec::Vec3<()> = mk();
     let _r: re::math::vec::Vec3<re::render::World> = a.apply(&b);
 }
 
-pub fn p547() {
+pub fn p557() {
     let a: re::math::mat::Mat4x4<re::math::mat::RealToReal<3, (), re::render::World>> = mk();
     let b: re::math::vec::Vec3<()> = mk();
     let _ = a.apply(&b);
 }
 
-pub fn p552() {
+pub fn p562() {
     let a: re::math::mat::Mat4x4<re::math::mat::RealToReal<3, (), re::render::World>> = mk();
     let _ = a.determinant();
 }
 
-pub fn p553() {
+pub fn p563() {
     let a: re::math::mat::Mat4x4<re::math::mat::RealToReal<3, (), re::render::World>> = mk();
     let _ = a.inverse();
 }
 
-pub fn p554() {
+pub fn p564() {
     let a: re::math::mat::Mat4x4<re::math::mat::RealToReal<3, (), re::render::World>> = mk();
     let _ = a.transpose();
 }
 
-pub fn p560() {
+pub fn p570() {
     let a: re::math::mat::Mat4x4<re::math::mat::RealToReal<3, re::render::World, re::render::Model>> = mk();
     let b: re::math::mat::Mat4x4<re::math::mat::RealToReal<3, re::render::Model, re::render::Model>> = mk();
     let _ = a.then(&b);
 }
 
-pub fn p562() {
+pub fn p572() {
     let a: re::math::mat::Mat4x4<re::math::mat::RealToReal<3, re::render::World, re::render::Model>> = mk();
     let b: re::math::mat::Mat4x4<re::math::mat::RealToReal<3, re::render::Model, ()>> = mk();
     let _ = a.then(&b);
 }
 
-pub fn p563() {
+pub fn p573() {
     let a: re::math::mat::Mat4x4<re::math::mat::RealToReal<3, re::render::World, re::render::Model>> = mk();
     let b: re::math::mat::Mat4x4<re::math::mat::RealToReal<3, re::render::Model, re::render::World>> = mk();
     let _r: re::math::mat::Mat4x4<re::math::mat::RealToReal<3, re::render::Model, re::render::Model>> = a.compose(&b);
 }
 
-pub fn p567() {
+pub fn p577() {
     let a: re::math::mat::Mat4x4<re::math::mat::RealToReal<3, re::render::World, re::render::Model>> = mk();
     let b: re::math::mat::Mat4x4<re::math::mat::RealToReal<3, re::render::Model, re::render::World>> = mk();
     let _ = a.compose(&b);
 }
 
-pub fn p568() {
+pub fn p578() {
     let a: re::math::mat::Mat4x4<re::math::mat::RealToReal<3, re::render::World, re::render::Model>> = mk();
     let b: re::math::mat::Mat4x4<re::math::mat::RealToReal<3, re::render::Model, re::render::World>> = mk();
     let _ = a.then(&b);
 }
 
-pub fn p574() {
+pub fn p584() {
     let a: re::math::mat::Mat4x4<re::math::mat::RealToReal<3, re::render::World, re::render::Model>> = mk();
     let b: re::math::mat::Mat4x4<re::math::mat::RealToReal<3, (), re::render::World>> = mk();
     let _ = a.compose(&b);
 }
 
-pub fn p585() {
+pub fn p595() {
     let a: re::math::mat::Mat4x4<re::math::mat::RealToReal<3, re::render::World, re::render::Model>> = mk();
     let b: re::math::mat::Mat4x4<re::math::mat::RealToReal<3, re::render::World, re::render::World>> = mk();
     let _r: re::math::mat::Mat4x4<re::math::mat::RealToReal<3, re::render::World, re::render::Model>> = a.compose(&b);
 }
 
-pub fn p588() {
+pub fn p598() {
     let a: re::math::mat::Mat4x4<re::math::mat::RealToReal<3, re::render::World, re::render::Model>> = mk();
     let b: re::math::mat::Mat4x4<re::math::mat::RealToReal<3, re::render::World, re::render::World>> = mk();
     let _ = a.compose(&b);
 }
 
-pub fn p590() {
+pub fn p600() {
     let a: re::math::mat::Mat4x4<re::math::mat::RealToReal<3, re::render::World, re::render::Model>> = mk();
     let b: re::math::mat::Mat4x4<re::math::mat::RealToProj<re::render::Model>> = mk();
     let _ = a.then(&b);
 }
 
-pub fn p606() {
+pub fn p616() {
     let a: re::math::mat::Mat4x4<re::math::mat::RealToReal<3, re::render::World, re::render::Model>> = mk();
     let b: re::math::point::Point3<re::render::World> = mk();
     let _r: re::math::point::Point3<re::render::Model> = a.apply_pt(&b);
 }
 
-pub fn p609() {
+pub fn p619() {
     let a: re::math::mat::Mat4x4<re::math::mat::RealToReal<3, re::render::World, re::render::Model>> = mk();
     let b: re::math::point::Point3<re::render::World> = mk();
     let _ = a.apply_pt(&b);
 }
 
-pub fn p621() {
+pub fn p631() {
     let a: re::math::mat::Mat4x4<re::math::mat::RealToReal<3, re::render::World, re::render::Model>> = mk();
     let b: re::math::vec::Vec3<re::render::World> = mk();
     let _r: re::math::vec::Vec3<re::render::Model> = a.apply(&b);
 }
 
-pub fn p624() {
+pub fn p634() {
     let a: re::math::mat::Mat4x4<re::math::mat::RealToReal<3, re::render::World, re::render::Model>> = mk();
     let b: re::math::vec::Vec3<re::render::World> = mk();
     let _ = a.apply(&b);
 }
 
-pub fn p625() {
+pub fn p635() {
     let a: re::math::mat::Mat4x4<re::math::mat::RealToReal<3, re::render::World, re::render::Model>> = mk();
     let _ = a.determinant();
 }
 
-pub fn p626() {
+pub fn p636() {
     let a: re::math::mat::Mat4x4<re::math::mat::RealToReal<3, re::render::World, re::render::Model>> = mk();
     let _ = a.inverse();
 }
 
-pub fn p627() {
+pub fn p637() {
     let a: re::math::mat::Mat4x4<re::math::mat::RealToReal<3, re::render::World, re::render::Model>> = mk();
     let _ = a.transpose();
 }
 
-pub fn p633() {
+pub fn p643() {
     let a: re::math::mat::Mat4x4<re::math::mat::RealToReal<3, re::render::World, ()>> = mk();
     let b: re::math::mat::Mat4x4<re::math::mat::RealToReal<3, re::render::Model, re::render::World>> = mk();
     let _ = a.compose(&b);
 }
 
-pub fn p635() {
+pub fn p645() {
     let a: re::math::mat::Mat4x4<re::math::mat::RealToReal<3, re::render::World, ()>> = mk();
     let b: re::math::mat::Mat4x4<re::math::mat::RealToReal<3, (), re::render::Model>> = mk();
     let _ = a.then(&b);
 }
 
-pub fn p637() {
+pub fn p647() {
     let a: re::math::mat::Mat4x4<re::math::mat::RealToReal<3, re::render::World, ()>> = mk();
     let b: re::math::mat::Mat4x4<re::math::mat::RealToReal<3, (), ()>> = mk();
     let _ = a.then(&b);
 }
 
-pub fn p638() {
+pub fn p648() {
     let a: re::math::mat::Mat4x4<re::math::mat::RealToReal<3, re::render::World, ()>> = mk();
     let b: re::math::mat::Mat4x4<re::math::mat::RealToReal<3, (), re::render::World>> = mk();
-    let _ = a.compose(&b);
-}
-
-pub fn p639() {
-    let a: re::math::mat::Mat4x4<re::math::mat::RealToReal<3, re::render::World, ()>> = mk();
-    let b: re::math::mat::Mat4x4<re::math::mat::RealToReal<3, (), re::render::World>> = mk();
-    let _ = a.then(&b);
-}
-
-pub fn p645() {
-    let a: re::math::mat::Mat4x4<re::math::mat::RealToReal<3, re::render::World, ()>> = mk();
-    let b: re::math::mat::Mat4x4<re::math::mat::RealToReal<3, re::render::World, re::render::World>> = mk();
     let _ = a.compose(&b);
 }
 
 pub fn p649() {
     let a: re::math::mat::Mat4x4<re::math::mat::RealToReal<3, re::render::World, ()>> = mk();
+    let b: re::math::mat::Mat4x4<re::math::mat::RealToReal<3, (), re::render::World>> = mk();
+    let _ = a.then(&b);
+}
+
+pub fn p655() {
+    let a: re::math::mat::Mat4x4<re::math::mat::RealToReal<3, re::render::World, ()>> = mk();
+    let b: re::math::mat::Mat4x4<re::math::mat::RealToReal<3, re::render::World, re::render::World>> = mk();
+    let _ = a.compose(&b);
+}
+
+pub fn p659() {
+    let a: re::math::mat::Mat4x4<re::math::mat::RealToReal<3, re::render::World, ()>> = mk();
     let b: re::math::mat::Mat4x4<re::math::mat::RealToProj<()>> = mk();
     let _ = a.then(&b);
 }
 
-pub fn p664() {
+pub fn p674() {
     let a: re::math::mat::Mat4x4<re::math::mat::RealToReal<3, re::render::World, ()>> = mk();
     let b: re::math::point::Point3<re::render::World> = mk();
     let _r: re::math::point::Point3<()> = a.apply_pt(&b);
 }
 
-pub fn p666() {
+pub fn p676() {
     let a: re::math::mat::Mat4x4<re::math::mat::RealToReal<3, re::render::World, ()>> = mk();
     let b: re::math::point::Point3<re::render::World> = mk();
     let _ = a.apply_pt(&b);
 }
 
-pub fn p679() {
+pub fn p689() {
     let a: re::math::mat::Mat4x4<re::math::mat::RealToReal<3, re::render::World, ()>> = mk();
     let b: re::math::vec::Vec3<re::render::World> = mk();
     let _r: re::math::vec::Vec3<()> = a.apply(&b);
 }
 
-pub fn p681() {
+pub fn p691() {
     let a: re::math::mat::Mat4x4<re::math::mat::RealToReal<3, re::render::World, ()>> = mk();
     let b: re::math::vec::Vec3<re::render::World> = mk();
     let _ = a.apply(&b);
 }
 
-pub fn p682() {
+pub fn p692() {
     let a: re::math::mat::Mat4x4<re::math::mat::RealToReal<3, re::render::World, ()>> = mk();
     let _ = a.determinant();
 }
 
-pub fn p683() {
+pub fn p693() {
     let a: re::math::mat::Mat4x4<re::math::mat::RealToReal<3, re::render::World, ()>> = mk();
     let _ = a.inverse();
 }
 
-pub fn p684() {
+pub fn p694() {
     let a: re::math::mat::Mat4x4<re::math::mat::RealToReal<3, re::render::World, ()>> = mk();
     let _ = a.transpose();
 }
 
-pub fn p694() {
+pub fn p704() {
     let a: re::math::mat::Mat4x4<re::math::mat::RealToReal<3, re::render::World, re::render::World>> = mk();
     let b: re::math::mat::Mat4x4<re::math::mat::RealToReal<3, re::render::Model, re::render::World>> = mk();
     let _r: re::math::mat::Mat4x4<re::math::mat::RealToReal<3, re::render::Model, re::render::World>> = a.compose(&b);
 }
 
-pub fn p698() {
+pub fn p708() {
     let a: re::math::mat::Mat4x4<re::math::mat::RealToReal<3, re::render::World, re::render::World>> = mk();
     let b: re::math::mat::Mat4x4<re::math::mat::RealToReal<3, re::render::Model, re::render::World>> = mk();
     let _ = a.compose(&b);
 }
 
-pub fn p704() {
+pub fn p714() {
     let a: re::math::mat::Mat4x4<re::math::mat::RealToReal<3, re::render::World, re::render::World>> = mk();
     let b: re::math::mat::Mat4x4<re::math::mat::RealToReal<3, (), re::render::World>> = mk();
     let _ = a.compose(&b);
 }
 
-pub fn p710() {
+pub fn p720() {
     let a: re::math::mat::Mat4x4<re::math::mat::RealToReal<3, re::render::World, re::render::World>> = mk();
     let b: re::math::mat::Mat4x4<re::math::mat::RealToReal<3, re::render::World, re::render::Model>> = mk();
     let _ = a.then(&b);
 }
 
-pub fn p712() {
+pub fn p722() {
     let a: re::math::mat::Mat4x4<re::math::mat::RealToReal<3, re::render::World, re::render::World>> = mk();
     let b: re::math::mat::Mat4x4<re::math::mat::RealToReal<3, re::render::World, ()>> = mk();
     let _ = a.then(&b);
 }
 
-pub fn p716() {
+pub fn p726() {
     let a: re::math::mat::Mat4x4<re::math::mat::RealToReal<3, re::render::World, re::render::World>> = mk();
     let b: re::math::mat::Mat4x4<re::math::mat::RealToReal<3, re::render::World, re::render::World>> = mk();
     let _r: re::math::mat::Mat4x4<re::math::mat::RealToReal<3, re::render::World, re::render::World>> = a.compose(&b);
 }
 
-pub fn p717() {
+pub fn p727() {
     let a: re::math::mat::Mat4x4<re::math::mat::RealToReal<3, re::render::World, re::render::World>> = mk();
     let b: re::math::mat::Mat4x4<re::math::mat::RealToReal<3, re::render::World, re::render::World>> = mk();
     let _ = a.compose(&b);
 }
 
-pub fn p718() {
+pub fn p728() {
     let a: re::math::mat::Mat4x4<re::math::mat::RealToReal<3, re::render::World, re::render::World>> = mk();
     let b: re::math::mat::Mat4x4<re::math::mat::RealToReal<3, re::render::World, re::render::World>> = mk();
     let _ = a.then(&b);
 }
 
-pub fn p724() {
+pub fn p734() {
     let a: re::math::mat::Mat4x4<re::math::mat::RealToReal<3, re::render::World, re::render::World>> = mk();
     let b: re::math::mat::Mat4x4<re::math::mat::RealToProj<re::render::World>> = mk();
     let _ = a.then(&b);
 }
 
-pub fn p738() {
+pub fn p748() {
     let a: re::math::mat::Mat4x4<re::math::mat::RealToReal<3, re::render::World, re::render::World>> = mk();
     let b: re::math::point::Point3<re::render::World> = mk();
     let _r: re::math::point::Point3<re::render::World> = a.apply_pt(&b);
 }
 
-pub fn p739() {
+pub fn p749() {
     let a: re::math::mat::Mat4x4<re::math::mat::RealToReal<3, re::render::World, re::render::World>> = mk();
     let b: re::math::point::Point3<re::render::World> = mk();
     let _ = a.apply_pt(&b);
 }
 
-pub fn p753() {
+pub fn p763() {
     let a: re::math::mat::Mat4x4<re::math::mat::RealToReal<3, re::render::World, re::render::World>> = mk();
     let b: re::math::vec::Vec3<re::render::World> = mk();
     let _r: re::math::vec::Vec3<re::render::World> = a.apply(&b);
 }
 
-pub fn p754() {
+pub fn p764() {
     let a: re::math::mat::Mat4x4<re::math::mat::RealToReal<3, re::render::World, re::render::World>> = mk();
     let b: re::math::vec::Vec3<re::render::World> = mk();
     let _ = a.apply(&b);
 }
 
-pub fn p755() {
+pub fn p765() {
     let a: re::math::mat::Mat4x4<re::math::mat::RealToReal<3, re::render::World, re::render::World>> = mk();
     let _ = a.determinant();
 }
 
-pub fn p756() {
+pub fn p766() {
     let a: re::math::mat::Mat4x4<re::math::mat::RealToReal<3, re::render::World, re::render::World>> = mk();
     let _ = a.inverse();
 }
 
-pub fn p757() {
+pub fn p767() {
     let a: re::math::mat::Mat4x4<re::math::mat::RealToReal<3, re::render::World, re::render::World>> = mk();
     let _ = a.transpose();
 }
 
-pub fn p759() {
+pub fn p769() {
     let a: re::math::mat::Mat4x4<re::math::mat::RealToProj<re::render::Model>> = mk();
     let b: re::math::mat::Mat4x4<re::math::mat::RealToReal<3, re::render::Model, re::render::Model>> = mk();
     let _ = a.compose(&b);
 }
 
-pub fn p765() {
+pub fn p775() {
     let a: re::math::mat::Mat4x4<re::math::mat::RealToProj<re::render::Model>> = mk();
     let b: re::math::mat::Mat4x4<re::math::mat::RealToReal<3, (), re::render::Model>> = mk();
     let _ = a.compose(&b);
 }
 
-pub fn p771() {
+pub fn p781() {
     let a: re::math::mat::Mat4x4<re::math::mat::RealToProj<re::render::Model>> = mk();
     let b: re::math::mat::Mat4x4<re::math::mat::RealToReal<3, re::render::World, re::render::Model>> = mk();
     let _ = a.compose(&b);
 }
 
-pub fn p776() {
+pub fn p786() {
     let a: re::math::mat::Mat4x4<re::math::mat::RealToProj<re::render::Model>> = mk();
     let b: re::math::point::Point3<re::render::Model> = mk();
     let _ = a.apply(&b);
 }
 
-pub fn p791() {
+pub fn p801() {
     let a: re::math::mat::Mat4x4<re::math::mat::RealToProj<()>> = mk();
     let b: re::math::mat::Mat4x4<re::math::mat::RealToReal<3, re::render::Model, ()>> = mk();
     let _ = a.compose(&b);
 }
 
-pub fn p797() {
+pub fn p807() {
     let a: re::math::mat::Mat4x4<re::math::mat::RealToProj<()>> = mk();
     let b: re::math::mat::Mat4x4<re::math::mat::RealToReal<3, (), ()>> = mk();
     let _ = a.compose(&b);
 }
 
-pub fn p803() {
+pub fn p813() {
     let a: re::math::mat::Mat4x4<re::math::mat::RealToProj<()>> = mk();
     let b: re::math::mat::Mat4x4<re::math::mat::RealToReal<3, re::render::World, ()>> = mk();
     let _ = a.compose(&b);
 }
 
-pub fn p808() {
+pub fn p818() {
     let a: re::math::mat::Mat4x4<re::math::mat::RealToProj<()>> = mk();
     let b: re::math::point::Point3<()> = mk();
     let _ = a.apply(&b);
 }
 
-pub fn p823() {
+pub fn p833() {
     let a: re::math::mat::Mat4x4<re::math::mat::RealToProj<re::render::World>> = mk();
     let b: re::math::mat::Mat4x4<re::math::mat::RealToReal<3, re::render::Model, re::render::World>> = mk();
     let _ = a.compose(&b);
 }
 
-pub fn p829() {
+pub fn p839() {
     let a: re::math::mat::Mat4x4<re::math::mat::RealToProj<re::render::World>> = mk();
     let b: re::math::mat::Mat4x4<re::math::mat::RealToReal<3, (), re::render::World>> = mk();
     let _ = a.compose(&b);
 }
 
-pub fn p835() {
+pub fn p845() {
     let a: re::math::mat::Mat4x4<re::math::mat::RealToProj<re::render::World>> = mk();
     let b: re::math::mat::Mat4x4<re::math::mat::RealToReal<3, re::render::World, re::render::World>> = mk();
     let _ = a.compose(&b);
 }
 
-pub fn p840() {
+pub fn p850() {
     let a: re::math::mat::Mat4x4<re::math::mat::RealToProj<re::render::World>> = mk();
     let b: re::math::point::Point3<re::render::World> = mk();
     let _ = a.apply(&b);
 }
 
-pub fn p848() {
+pub fn p864() {
     use re::geom::{Tri, Vertex};
     let vs = |_: Vertex<re::math::point::Point3<re::render::Model>, ()>, _: ()| -> Vertex<re::math::vec::ProjVec4, f32> { mk() };
     let fs = |_: re::render::raster::Frag<f32>| -> Option<re::math::color::Color4> { mk() };
@@ -1097,61 +1127,61 @@ pub fn p848() {
     re::render::render(&tris, &verts, &sh, (), mk(), &mut target, &mk::<re::render::Context>());
 }
 
-pub fn p850() {
+pub fn p866() {
     let a: re::math::point::Point2<re::render::Model> = mk();
     let b: re::math::point::Point2<re::render::Model> = mk();
     let _ = re::math::Lerp::lerp(&a, &b, 0.5);
 }
 
-pub fn p851() {
+pub fn p867() {
     let a: re::math::point::Point2<re::render::Model> = mk();
     let b: re::math::point::Point2<re::render::Model> = mk();
     let _ = a - b;
 }
 
-pub fn p867() {
+pub fn p883() {
     let a: re::math::point::Point2<re::render::Model> = mk();
     let b: re::math::vec::Vec2<re::render::Model> = mk();
     let _ = a + b;
 }
 
-pub fn p877() {
+pub fn p893() {
     let a: re::math::point::Point2<()> = mk();
     let b: re::math::point::Point2<()> = mk();
     let _ = re::math::Lerp::lerp(&a, &b, 0.5);
 }
 
-pub fn p878() {
+pub fn p894() {
     let a: re::math::point::Point2<()> = mk();
     let b: re::math::point::Point2<()> = mk();
     let _ = a - b;
 }
 
-pub fn p892() {
+pub fn p908() {
     let a: re::math::point::Point2<()> = mk();
     let b: re::math::vec::Vec2<()> = mk();
     let _ = a + b;
 }
 
-pub fn p904() {
+pub fn p920() {
     let a: re::math::point::Point2<re::render::World> = mk();
     let b: re::math::point::Point2<re::render::World> = mk();
     let _ = re::math::Lerp::lerp(&a, &b, 0.5);
 }
 
-pub fn p905() {
+pub fn p921() {
     let a: re::math::point::Point2<re::render::World> = mk();
     let b: re::math::point::Point2<re::render::World> = mk();
     let _ = a - b;
 }
 
-pub fn p917() {
+pub fn p933() {
     let a: re::math::point::Point2<re::render::World> = mk();
     let b: re::math::vec::Vec2<re::render::World> = mk();
     let _ = a + b;
 }
 
-pub fn p931() {
+pub fn p947() {
     let a: re::math::point::Point3<re::render::Model> = mk();
     let b: re::math::point::Point3<re::render::Model> = mk();
     let c: re::math::point::Point3<re::render::Model> = mk();
@@ -1159,31 +1189,31 @@ pub fn p931() {
     let _ = re::math::space::Affine::add(&c, &d);
 }
 
-pub fn p936() {
+pub fn p952() {
     let a: re::math::point::Point3<re::render::Model> = mk();
     let b: re::math::point::Point3<re::render::Model> = mk();
     let _r: re::math::vec::Vec3<re::render::Model> = a - b;
 }
 
-pub fn p940() {
+pub fn p956() {
     let a: re::math::point::Point3<re::render::Model> = mk();
     let b: re::math::point::Point3<re::render::Model> = mk();
     let _ = re::math::Lerp::lerp(&a, &b, 0.5);
 }
 
-pub fn p941() {
+pub fn p957() {
     let a: re::math::point::Point3<re::render::Model> = mk();
     let b: re::math::point::Point3<re::render::Model> = mk();
     let _ = a - b;
 }
 
-pub fn p969() {
+pub fn p985() {
     let a: re::math::point::Point3<re::render::Model> = mk();
     let b: re::math::vec::Vec3<re::render::Model> = mk();
     let _ = a + b;
 }
 
-pub fn p997() {
+pub fn p1013() {
     let a: re::math::point::Point3<()> = mk();
     let b: re::math::point::Point3<()> = mk();
     let c: re::math::point::Point3<()> = mk();
@@ -1191,31 +1221,31 @@ pub fn p997() {
     let _ = re::math::space::Affine::add(&c, &d);
 }
 
-pub fn p1001() {
+pub fn p1017() {
     let a: re::math::point::Point3<()> = mk();
     let b: re::math::point::Point3<()> = mk();
     let _r: re::math::vec::Vec3<()> = a - b;
 }
 
-pub fn p1004() {
+pub fn p1020() {
     let a: re::math::point::Point3<()> = mk();
     let b: re::math::point::Point3<()> = mk();
     let _ = re::math::Lerp::lerp(&a, &b, 0.5);
 }
 
-pub fn p1005() {
+pub fn p1021() {
     let a: re::math::point::Point3<()> = mk();
     let b: re::math::point::Point3<()> = mk();
     let _ = a - b;
 }
 
-pub fn p1022() {
+pub fn p1038() {
     let a: re::math::point::Point3<()> = mk();
     let b: re::math::vec::Vec3<()> = mk();
     let _ = a + b;
 }
 
-pub fn p1062() {
+pub fn p1078() {
     let a: re::math::point::Point3<re::render::World> = mk();
     let b: re::math::point::Point3<re::render::World> = mk();
     let c: re::math::point::Point3<re::render::World> = mk();
@@ -1223,169 +1253,169 @@ pub fn p1062() {
     let _ = re::math::space::Affine::add(&c, &d);
 }
 
-pub fn p1065() {
+pub fn p1081() {
     let a: re::math::point::Point3<re::render::World> = mk();
     let b: re::math::point::Point3<re::render::World> = mk();
     let _r: re::math::vec::Vec3<re::render::World> = a - b;
 }
 
-pub fn p1067() {
-    let a: re::math::point::Point3<re::render::World> = mk();
-    let b: re::math::point::Point3<re::render::World> = mk();
-    let _ = re::math::Lerp::lerp(&a, &b, 0.5);
-}
-
-pub fn p1068() {
-    let a: re::math::point::Point3<re::render::World> = mk();
-    let b: re::math::point::Point3<re::render::World> = mk();
-    let _ = a - b;
-}
-
-pub fn p1074() {
-    let a: re::math::point::Point3<re::render::World> = mk();
-    let b: re::math::vec::Vec3<re::render::World> = mk();
-    let _ = a + b;
-}
-
-pub fn p1081() {
-    let a: re::math::vec::Vec2<re::render::Model> = mk();
-    let b: re::math::vec::Vec2<re::render::Model> = mk();
-    let _ = a + b;
-}
-
-pub fn p1082() {
-    let a: re::math::vec::Vec2<re::render::Model> = mk();
-    let b: re::math::vec::Vec2<re::render::Model> = mk();
-    let _ = a.dot(&b);
-}
-
 pub fn p1083() {
-    let a: re::math::vec::Vec2<re::render::Model> = mk();
-    let b: re::math::vec::Vec2<re::render::Model> = mk();
+    let a: re::math::point::Point3<re::render::World> = mk();
+    let b: re::math::point::Point3<re::render::World> = mk();
     let _ = re::math::Lerp::lerp(&a, &b, 0.5);
 }
 
 pub fn p1084() {
+    let a: re::math::point::Point3<re::render::World> = mk();
+    let b: re::math::point::Point3<re::render::World> = mk();
+    let _ = a - b;
+}
+
+pub fn p1090() {
+    let a: re::math::point::Point3<re::render::World> = mk();
+    let b: re::math::vec::Vec3<re::render::World> = mk();
+    let _ = a + b;
+}
+
+pub fn p1097() {
+    let a: re::math::vec::Vec2<re::render::Model> = mk();
+    let b: re::math::vec::Vec2<re::render::Model> = mk();
+    let _ = a + b;
+}
+
+pub fn p1098() {
+    let a: re::math::vec::Vec2<re::render::Model> = mk();
+    let b: re::math::vec::Vec2<re::render::Model> = mk();
+    let _ = a.dot(&b);
+}
+
+pub fn p1099() {
+    let a: re::math::vec::Vec2<re::render::Model> = mk();
+    let b: re::math::vec::Vec2<re::render::Model> = mk();
+    let _ = re::math::Lerp::lerp(&a, &b, 0.5);
+}
+
+pub fn p1100() {
     let a: re::math::vec::Vec2<re::render::Model> = mk();
     let b: re::math::vec::Vec2<re::render::Model> = mk();
     let _ = a - b;
 }
 
-pub fn p1115() {
+pub fn p1131() {
     let a: re::math::vec::Vec2<()> = mk();
     let b: re::math::vec::Vec2<()> = mk();
     let _ = a + b;
 }
 
-pub fn p1116() {
+pub fn p1132() {
     let a: re::math::vec::Vec2<()> = mk();
     let b: re::math::vec::Vec2<()> = mk();
     let _ = a.dot(&b);
 }
 
-pub fn p1117() {
+pub fn p1133() {
     let a: re::math::vec::Vec2<()> = mk();
     let b: re::math::vec::Vec2<()> = mk();
     let _ = re::math::Lerp::lerp(&a, &b, 0.5);
 }
 
-pub fn p1118() {
+pub fn p1134() {
     let a: re::math::vec::Vec2<()> = mk();
     let b: re::math::vec::Vec2<()> = mk();
     let _ = a - b;
 }
 
-pub fn p1149() {
+pub fn p1165() {
     let a: re::math::vec::Vec2<re::render::World> = mk();
     let b: re::math::vec::Vec2<re::render::World> = mk();
     let _ = a + b;
 }
 
-pub fn p1150() {
+pub fn p1166() {
     let a: re::math::vec::Vec2<re::render::World> = mk();
     let b: re::math::vec::Vec2<re::render::World> = mk();
     let _ = a.dot(&b);
 }
 
-pub fn p1151() {
+pub fn p1167() {
     let a: re::math::vec::Vec2<re::render::World> = mk();
     let b: re::math::vec::Vec2<re::render::World> = mk();
     let _ = re::math::Lerp::lerp(&a, &b, 0.5);
 }
 
-pub fn p1152() {
+pub fn p1168() {
     let a: re::math::vec::Vec2<re::render::World> = mk();
     let b: re::math::vec::Vec2<re::render::World> = mk();
     let _ = a - b;
 }
 
-pub fn p1183() {
+pub fn p1199() {
     let a: re::math::vec::Vec3<re::render::Model> = mk();
     let b: re::math::vec::Vec3<re::render::Model> = mk();
     let _ = a + b;
 }
 
-pub fn p1184() {
+pub fn p1200() {
     let a: re::math::vec::Vec3<re::render::Model> = mk();
     let b: re::math::vec::Vec3<re::render::Model> = mk();
     let _ = a.dot(&b);
 }
 
-pub fn p1185() {
+pub fn p1201() {
     let a: re::math::vec::Vec3<re::render::Model> = mk();
     let b: re::math::vec::Vec3<re::render::Model> = mk();
     let _ = re::math::Lerp::lerp(&a, &b, 0.5);
 }
 
-pub fn p1186() {
+pub fn p1202() {
     let a: re::math::vec::Vec3<re::render::Model> = mk();
     let b: re::math::vec::Vec3<re::render::Model> = mk();
     let _ = a - b;
 }
 
-pub fn p1218() {
+pub fn p1234() {
     let a: re::math::vec::Vec3<()> = mk();
     let b: re::math::vec::Vec3<()> = mk();
     let _ = a + b;
 }
 
-pub fn p1219() {
+pub fn p1235() {
     let a: re::math::vec::Vec3<()> = mk();
     let b: re::math::vec::Vec3<()> = mk();
     let _ = a.dot(&b);
 }
 
-pub fn p1220() {
+pub fn p1236() {
     let a: re::math::vec::Vec3<()> = mk();
     let b: re::math::vec::Vec3<()> = mk();
     let _ = re::math::Lerp::lerp(&a, &b, 0.5);
 }
 
-pub fn p1221() {
+pub fn p1237() {
     let a: re::math::vec::Vec3<()> = mk();
     let b: re::math::vec::Vec3<()> = mk();
     let _ = a - b;
 }
 
-pub fn p1252() {
+pub fn p1268() {
     let a: re::math::vec::Vec3<re::render::World> = mk();
     let b: re::math::vec::Vec3<re::render::World> = mk();
     let _ = a + b;
 }
 
-pub fn p1253() {
+pub fn p1269() {
     let a: re::math::vec::Vec3<re::render::World> = mk();
     let b: re::math::vec::Vec3<re::render::World> = mk();
     let _ = a.dot(&b);
 }
 
-pub fn p1254() {
+pub fn p1270() {
     let a: re::math::vec::Vec3<re::render::World> = mk();
     let b: re::math::vec::Vec3<re::render::World> = mk();
     let _ = re::math::Lerp::lerp(&a, &b, 0.5);
 }
 
-pub fn p1255() {
+pub fn p1271() {
     let a: re::math::vec::Vec3<re::render::World> = mk();
     let b: re::math::vec::Vec3<re::render::World> = mk();
     let _ = a - b;
